@@ -6,11 +6,13 @@ scenario, writes its result as JSON to a pipe and ``_exit``s.  ``run_many``
 shards a list of jobs over N worker processes, each of which forks one child
 per job.  A run's result therefore cannot depend on which worker ran it.
 """
+import fcntl
 import json
 import os
 import select
 import shutil
 import signal
+import struct
 import sys
 import time
 import traceback
@@ -203,7 +205,7 @@ def run_many(prop_mod, jobs, nworkers=16, deadline=None, stop_on=None, keep=None
 
     Returns (results, agg): ``results`` maps key -> (scenario, result) for the
     runs worth keeping individually (``keep(key, result)`` true, any violation or
-    harness error, and the first ``nsamples`` non-trivial runs of each worker);
+    harness error, and - if ``nsamples`` - the non-trivial runs among the first 48 jobs);
     ``agg`` is the fold of *all* results that completed without harness error.
     ``stop_on(result)`` true => all workers stop early.  ``deadline`` is a
     time.monotonic value after which no new run is started.
@@ -214,6 +216,13 @@ def run_many(prop_mod, jobs, nworkers=16, deadline=None, stop_on=None, keep=None
     nworkers = max(1, min(nworkers, len(jobs)))
     workdir = _mk_workdir()
     stopfile = os.path.join(workdir, "stop")
+    # Jobs are handed out in index order from one shared counter (a locked 8-byte file), not by a fixed stride: the set of
+    # runs executed is then always a prefix of the job list, whatever a run costs and however fast the machine is, and one
+    # expensive run does not hold up the jobs behind it.  (Which worker executes a run cannot matter: every run is a
+    # fresh fork of a pristine worker.)
+    ctr_path = os.path.join(workdir, "next")
+    with open(ctr_path, "wb") as f:
+        f.write(struct.pack("<q", 0))
     pids = []
     sys.stdout.flush()
     sys.stderr.flush()
@@ -224,11 +233,14 @@ def run_many(prop_mod, jobs, nworkers=16, deadline=None, stop_on=None, keep=None
             try:
                 out = open(os.path.join(workdir, "res-%d.jsonl" % w), "w")
                 agg = new_agg()
-                kept_samples = 0
-                for j in range(w, len(jobs), nworkers):
+                cfd = os.open(ctr_path, os.O_RDWR)
+                while True:
                     if deadline is not None and time.monotonic() >= deadline:
                         break
                     if os.path.exists(stopfile):
+                        break
+                    j = _take(cfd)
+                    if j >= len(jobs):
                         break
                     key, sc = jobs[j]
                     t0 = time.monotonic()
@@ -247,9 +259,8 @@ def run_many(prop_mod, jobs, nworkers=16, deadline=None, stop_on=None, keep=None
                         fold(agg, res)
                     elif res.get("timeout"):
                         agg["timeouts"] += 1
-                    is_sample = (not bad and res.get("nontrivial") and kept_samples < nsamples)
-                    if is_sample:
-                        kept_samples += 1
+                    # samples: non-trivial runs among the first few dozen jobs (a function of the job list, not of timing)
+                    is_sample = bool(not bad and res.get("nontrivial") and nsamples and j < 48)
                     if bad or res.get("violations") or is_sample or (keep is not None and keep(key, res)):
                         full = bad or res.get("violations") or is_sample
                         out.write(core.dumps({"key": key, "scenario": sc if full else None,
@@ -289,6 +300,17 @@ def run_many(prop_mod, jobs, nworkers=16, deadline=None, stop_on=None, keep=None
     if bad:
         results["__worker_failures__"] = (None, {"harness_error": "%d worker(s) failed" % bad})
     return results, agg_total
+
+
+def _take(fd):
+    """Next job index from the shared counter."""
+    fcntl.flock(fd, fcntl.LOCK_EX)
+    try:
+        j = struct.unpack("<q", os.pread(fd, 8, 0))[0]
+        os.pwrite(fd, struct.pack("<q", j + 1), 0)
+    finally:
+        fcntl.flock(fd, fcntl.LOCK_UN)
+    return j
 
 
 def _freeze(k):
